@@ -32,7 +32,7 @@ LEAN_MODULES = {
     "C03": ["TFV.Properties.EA", "TFV.Properties.Src.Engine"],
     "C04": ["TFV.Properties.Rng"],
     "C05": ["TFV.Properties.EA"],
-    "C06": ["TFV.Properties.BinOps", "TFV.Properties.Runs", "TFV.Properties.Src.BinKernels"],
+    "C06": ["TFV.Properties.BinOps", "TFV.Properties.Runs", "TFV.Properties.Src.BinKernels", "TFV.Properties.Src.BinKernels2"],
     "C07": ["TFV.Properties.DE", "TFV.Properties.Runs", "TFV.Properties.Src.BoundsControl", "TFV.Properties.Src.Binomial"],
     "C08": ["TFV.Properties.Tree", "TFV.Properties.TreeCR", "TFV.Properties.Runs"],
     "C09": ["TFV.Properties.Tree", "TFV.Properties.TreeCR", "TFV.Properties.Src.TreeIdx", "TFV.Properties.Src.CommonRegion"],
@@ -55,7 +55,8 @@ SRC_KERNELS = {
     "C01": ["TheFittest_replace", "TheFittest_update"],
     "C02": ["TheFittest_replace", "TheFittest_update"],
     "C03": ["TheFittest_replace", "TheFittest_update", "termination_check", "get_remains_calls"],
-    "C06": ["flip_mutation", "binomialGA", "one_point_crossover", "two_point_crossover", "uniform_crossover"],
+    "C06": ["flip_mutation", "binomialGA", "one_point_crossover", "two_point_crossover", "uniform_crossover",
+            "uniform_proportional_crossover", "uniform_rank_crossover", "empty_crossover"],
     "C07": ["bounds_control", "binomial"],
     "C09": ["find_end_subtree_from_i", "find_id_args_from_i", "find_first_difference_between_two", "common_region_two_trees"],
     "C11": ["binary_search_interval", "check_for_value", "argsort_k", "tournament_selection", "sattolo_shuffle", "random_sample", "random_weighted_sample"],
